@@ -463,6 +463,56 @@ func kindCasesDepth(p *Program, f *FuncInfo, depth int) (union map[byte]bool, de
 		}
 		return true
 	})
+	if nSwitches == 0 && depth < 2 {
+		// arms peeled off in front of the dispatch: `if k == '{' { ... }`
+		ifKinds := map[byte]bool{}
+		InspectNoLit(f.Body(), func(n ast.Node) bool {
+			ifs, ok := n.(*ast.IfStmt)
+			if !ok {
+				return true
+			}
+			for _, cj := range disjuncts(ifs.Cond) {
+				if be, ok := cj.(*ast.BinaryExpr); ok && be.Op == token.EQL {
+					if t := info.TypeOf(be.X); t != nil && kindT != nil && types.Identical(t, kindT) {
+						if v, isC := ConstI64(info, be.Y); isC && v >= 0 && v < 256 {
+							ifKinds[byte(v)] = true
+						}
+					}
+				}
+			}
+			return true
+		})
+		defer func() {
+			if nSwitches > 0 {
+				for k := range ifKinds {
+					union[k] = true
+				}
+			}
+		}()
+		// the whole dispatch may have been moved into a private helper that is handed the kind
+		InspectNoLit(f.Body(), func(n ast.Node) bool {
+			call, ok := n.(*ast.CallExpr)
+			if !ok {
+				return true
+			}
+			hasKindArg := false
+			for _, a := range call.Args {
+				if t := info.TypeOf(a); t != nil && kindT != nil && types.Identical(t, kindT) {
+					hasKindArg = true
+				}
+			}
+			if !hasKindArg {
+				return true
+			}
+			if h := p.InlineAny(f)(call); h != nil {
+				hu, hf, hn := kindCasesDepth(p, h, depth+1)
+				if hn > 0 && len(hu) > len(union) {
+					union, defaultFails, nSwitches = hu, hf, hn
+				}
+			}
+			return true
+		})
+	}
 	return
 }
 
@@ -564,4 +614,12 @@ func ruleKIND1(c *Ctx) {
 		}
 		c.Oblige("dispatch:"+s.name, f.Pos(), ok, detail)
 	}
+}
+
+func disjuncts(e ast.Expr) []ast.Expr {
+	e = ast.Unparen(e)
+	if be, ok := e.(*ast.BinaryExpr); ok && be.Op == token.LOR {
+		return append(disjuncts(be.X), disjuncts(be.Y)...)
+	}
+	return []ast.Expr{e}
 }
